@@ -21,7 +21,8 @@ Theorem C19_analysis_fresh : forall cf pick disk rank fuel h w, good pick disk r
   run cf pick disk fuel h = Ok w ->
   forall p f a, live_id w p = Some f -> w_an w f = Some a ->
     final_docs disk h p = Some (a_src a) /\ a_state a <> Typechecking /\
-    (a_state a = Typechecked -> same_diags (a_tdiags a) (expect_t (final_docs disk h) fuel p)).
+    (a_state a = Typechecked ->
+       same_diags (a_tdiags a) (expect_t (final_docs disk h) fuel p) /\ NoDup (a_tdiags a)).
 Proof. exact analysis_fresh. Qed.
 
 Theorem C19_open_analysed : forall cf pick disk rank fuel h w, good pick disk rank fuel h ->
@@ -43,15 +44,16 @@ Theorem C19_answers_history_independent :
        (a_state a1 = Typechecked -> a_state a2 = Typechecked -> same_diags (a_tdiags a1) (a_tdiags a2))).
 Proof. exact answers_history_independent. Qed.
 
-(* no stale and no missing diagnostics: what was last published for a current file is what a
-   fresh server computes from the final documents, and every open document has been published.
+(* no stale, no missing and no duplicated diagnostics: what was last published for a current
+   file is, as a duplicate-free list, what a fresh server computes from the final documents, and
+   every open document has been published.
    For the code as it is now ([purge_closed] = true) on every history; for the code before fix
    36b39fb only on histories without didClose (C19_closed_buffer_refuted: the restriction is needed). *)
 Theorem C19_no_dup_no_stale : forall cf pick disk rank fuel h w, good pick disk rank fuel h ->
   (purge_closed cf = true \/ no_close h) ->
   run cf pick disk fuel h = Ok w ->
   (forall p ds, w_pub w p = Some ds -> live_id w p <> None ->
-     same_diags ds (expect (final_docs disk h) fuel p)) /\
+     same_diags ds (expect (final_docs disk h) fuel p) /\ NoDup ds) /\
   (forall p, bufs_after no_bufs h p <> None -> w_pub w p <> None).
 Proof. exact diagnostics_fresh. Qed.
 
